@@ -3,7 +3,7 @@ from . import ir, util, poly
 from .report import site
 from .front import AnalysisBroken
 from .rules_c12 import guards_of, dominated_by_guard, throw_only, succ_of
-from .rules_c14 import letter_tests, branch_nodes
+from .rules_c14 import letter_tests, branch_nodes, current_char_names
 
 UNITS = ['src/Show.c', 'src/String.c', 'src/Num.c', 'src/File.c', 'src/Exception.c']
 
@@ -226,7 +226,7 @@ def check_scan(P, ctx):
             if ir.callee_name(c) == 'strchr':
                 hay, needle = N.canon(c[2][0]), N.canon(c[2][1])
                 n_dec += 1
-                if hay[0] == 'str' and needle == cur:
+                if hay[0] == 'str' and (needle == cur or needle in current_char_names(g, fmtp)):
                     continue
                 if hay == ('local', 'fmt_buf'):
                     continue
